@@ -53,6 +53,9 @@ def collect(names_kinds, values):
     return data
 
 
+_YAML_PATH = None
+
+
 class Capture:
     def __init__(self):
         self.facets = []
@@ -98,11 +101,16 @@ def make_exporter(source, allow, cap):
             os.environ['OF_SAFE_METRICS'] = ' , '.join(allow) + (' ,' if allow else '')
             return OTelLineageExporter(cap, allowlist=ofcfg.read_allowlist())
         if source == 'yaml':
-            fd, tmp = tempfile.mkstemp(suffix='.yaml')
-            with os.fdopen(fd, 'w') as fh:
+            # ONE configuration file for the whole run, rewritten for every case: the allow-list in force is the one the
+            # file holds when the exporter is built (a tightened file must take effect)
+            global _YAML_PATH
+            if _YAML_PATH is None:
+                fd, _YAML_PATH = tempfile.mkstemp(suffix='.yaml')
+                os.close(fd)
+            with open(_YAML_PATH, 'w') as fh:
                 fh.write('safe_metrics:\n' + ''.join(f'  - {json.dumps(a)}\n' for a in allow) if allow
                          else 'safe_metrics: []\n')
-            os.environ['OF_SAFE_METRICS_FILE'] = tmp
+            os.environ['OF_SAFE_METRICS_FILE'] = _YAML_PATH
             return OTelLineageExporter(cap, allowlist=ofcfg.read_allowlist())
         raise ValueError(source)
     finally:
@@ -164,6 +172,8 @@ def run(ctx):
         vectors = keep + rest[:1200 - len(keep)]
     sources = ('arg', 'env', 'yaml')
     nviol = 0
+    # the configuration file starts wide open and is tightened afterwards: every later case must see the file as it is then
+    make_exporter('yaml', ['*'], Capture())
     for vi, v in enumerate(vectors):
         allow = [name_of(p) for p in v['allow']]
         names = [name_of(m) for m in v['metrics']]
@@ -244,6 +254,8 @@ def run(ctx):
             rep.violation(f'OpenTelemetryClient exported {bad} with allow-list {p["allow"]!r}', w,
                           {'kind': 'leak', 'empty_allowlist': not allow})
     rep.exhaustive = not ctx.quick
+    if _YAML_PATH and os.path.exists(_YAML_PATH):
+        os.unlink(_YAML_PATH)
     return rep.finish()
 
 
